@@ -201,8 +201,28 @@ def adapt_case(method):
         orb = Orbit([7e6, 0, 0, 0, 7.6e3, 500.0], Date(2020, 1, 1), "cartesian", "EME2000", prop)
         prop.orbit = orb
         step, y1 = prop._make_step(prop.orbit, _td(seconds=120))
-        return {"stages": 0, "compared_quantity_squared": 0.0, "compared_quantity_is_a_norm": Holds(same), "new_step_power_law": 0.0,
-                "_e2": 0.0, "tolerance_consulted": Holds(abs(step.total_seconds()) < 119.0)}
+        consulted = abs(step.total_seconds()) < 119.0
+
+        # which part of the error estimate is compared: a field whose time dependence only shows in the *position* derivative
+        # (its estimate is large on the position part and zero on the velocity part) must shorten the step, the same dependence
+        # on the velocity derivative alone must not
+        def shortened(component):
+            p2 = kn.KeplerNum(_td(seconds=120), get_body("Earth"), method=method, tol=1e-3)
+            o2 = Orbit([7e6, 0, 0, 0, 7.6e3, 500.0], Date(2020, 1, 1), "cartesian", "EME2000", p2)
+            p2.orbit = o2
+            t0 = p2.orbit.date
+
+            def field(y):
+                tau = (y.date - t0).total_seconds() / 120.0
+                d = np.zeros(6)
+                d[component] = 1e3 * tau ** 7
+                return d
+            p2._accel = field
+            st, _ = p2._make_step(p2.orbit, _td(seconds=120))
+            return abs(st.total_seconds()) < 119.0
+        position_part = shortened(0) and not shortened(3)
+        return {"stages": 0, "compared_quantity_squared": 0.0 if position_part else 1.0, "compared_quantity_is_a_norm": Holds(same),
+                "new_step_power_law": 0.0, "_e2": 0.0, "tolerance_consulted": Holds(consulted)}
 
     def ref(env, v, out):
         if not env.symbolic:
